@@ -343,7 +343,14 @@ func (env *oapiEnv) compute(r oReq, wd time.Duration) httpRes {
 	if r.stats {
 		path = "/compute-with-stats"
 	}
-	return env.do("POST", path, r.json(), wd)
+	res := env.do("POST", path, r.json(), wd)
+	if res.outcome == "timeout" && wd >= 20*time.Second && slowRetries > 0 {
+		// a loaded machine stretches a long run past the watchdog: once more, six times as long (a hang stays a hang;
+		// the fixed known-finding request of C15 uses a shorter watchdog and is not repeated)
+		slowRetries--
+		res = env.do("POST", path, r.json(), 6*wd)
+	}
+	return res
 }
 
 func runOapiCompute(prop string) func(h *H) {
